@@ -42,6 +42,7 @@ def run(chk):
         szx(chk, prog, ln, m)
         scr(chk, prog, ln, m)
     ay_pairing(chk, prog)
+    szx_ay_chunk(chk, prog, ln)
     # the loaders hand the loaded RAM to the display through this routine: it must feed every screen page
     from . import c08
     chk.rule("T-PAIR/refresh", "refresh_memory_dependent_devices re-reads every screen page of the machine (shared with C08)")
@@ -381,3 +382,69 @@ def ay_pairing(chk, prog):
         ok = ok and isinstance(regs, Agg) and len(fw) == 16 and all(
             isinstance(a, T) and a.is_const() and a.val == i and b is regs.fields[i] and isinstance(b, T) and "chip.regs" not in tm.show(b) for i, (a, b) in enumerate(fw))
     chk.check(ok, "T-PAIR/ZXAyChip::set_regs", "set_regs does not forward each of the 16 loaded registers to the sound generator")
+
+
+def szx_ay_chunk(chk, prog, ln):
+    """T-TABLE/szx/AY: the AY chunk handler (chFlags, chCurrentRegister, chAyRegs[16]) walked with the chip's own
+    methods inlined and only the sound generator's register write as an effect: on every path on which the chip is
+    restored, afterwards the selected register is byte 1 (mod 16), register i holds byte 2+i, and the generator was
+    given exactly the sixteen pairs (i, byte 2+i) — whatever order the restore goes through the chip's methods."""
+    chk.rule("T-TABLE/szx/AY", "final AY chip state after the AY chunk: selected register, register file, generator writes")
+    try:
+        AYB = prog.fn_path("rustzx_core", "szx::process_ay_block")
+    except KeyError:
+        chk.undecided_("T-TABLE/szx/AY/anchor", "the AY chunk handler (szx::process_ay_block) was not found")
+        return
+    CH = prog.adt_path("rustzx_core", "ZXAyChip")
+    MIX = prog.adt_path("rustzx_core", "ZXMixer")
+    WR = [p for p in prog.fns if p.startswith("<aym::") and "AymBackend" in p and p.endswith("::write_register")]
+    SETAY = prog.fn_path("rustzx_core", "Emulator::<H>::set_ay_enabled")
+    n = 0
+    for m in ("Sinclair48K", "Sinclair128K"):
+        w = Walker(prog, loop_bound=20, max_paths=4000)
+        w.opaque_paths |= set(WR) | {SETAY}
+        w.effect_hook = lambda w_, st_, path, a, d, wh: EffectResult(None, havoc=False)
+        st = ld.emulator_state(w, prog, ln, m)
+        emu = st.store[ld.EMU]
+        # AY present: the handler's own enabling logic (48K files with the 128AY flag) is C14's guard rule; here the
+        # restore itself is judged, so the chip is taken as enabled
+        s = emu.fields[prog.field_index(ln.EM, "settings")].with_field(prog.field_index(ln.SET, "ay_enabled"), tm.TRUE)
+        st.store[ld.EMU] = emu.with_field(prog.field_index(ln.EM, "settings"), s)
+        data = Agg(("array",), 0, [tm.sym("ay[%d]" % i, 8) for i in range(18)])
+        st.store[("h", "aydata")] = data
+        mid = tm.sym("machine_id", 32)
+        rs = w.run(prog.fn(AYB), [Ref(ld.EMU, (), True), mid, Ref(("h", "aydata"), (), False, K(18, 64))], genv={"H": ld.H}, state=st)
+        key = "T-TABLE/szx::load/%s/AY" % m
+        good = [r for r in rs if r.outcome == "return"]
+        bad = [r for r in rs if r.outcome not in ("return", "panic")]
+        if not good or bad:
+            chk.undecided_(key + "/paths", "exploration of the AY chunk handler failed: %s" % [(r.outcome, r.detail) for r in (bad or rs)][:2])
+            continue
+        for r in good:
+            fw = [(e.args[1], e.args[2]) for e in r.trace if e.path in WR]
+            if not fw:
+                continue
+            ctl = r.store[ld.EMU].fields[prog.field_index(ln.EM, "controller")]
+            chip = cc.tree_get(ctl, (prog.field_index(ln.CTL, "mixer"), prog.field_index(MIX, "ay")))
+            if not isinstance(chip, Agg):
+                chk.undecided_(key + "/chip", "the AY chip is not reached at controller.mixer.ay")
+                continue
+            cur = cc.leaf_term(chip.fields[prog.field_index(CH, "current_reg")])
+            want = tm.zext(tm.binop("and", tm.sym("ay[1]", 8), K(0x0F, 8)), cur.bits) if isinstance(cur, T) else None
+            chk.check(isinstance(cur, T) and tm.equiv(cur, want) is True, key + "/selected-register",
+                      "after the AY chunk the selected register is %s; the file says chCurrentRegister (byte 1, mod 16)" % (tm.show(cur) if isinstance(cur, T) else cur))
+            regs = chip.fields[prog.field_index(CH, "regs")]
+            okr = isinstance(regs, Agg) and len(regs.fields) == 16 and all(cc.leaf_term(regs.fields[i]) is tm.sym("ay[%d]" % (2 + i), 8) for i in range(16))
+            chk.check(okr, key + "/register-file", "after the AY chunk the register file is not chAyRegs[0..16]: %s" % (regs,))
+            last = {}
+            for a, b in fw:
+                if isinstance(a, T) and a.is_const():
+                    last[a.val] = b
+                else:
+                    last = None
+                    break
+            okg = last is not None and sorted(last) == list(range(16)) and all(last[i] is tm.sym("ay[%d]" % (2 + i), 8) for i in range(16))
+            chk.check(okg, key + "/generator", "the sound generator does not end with register i = chAyRegs[i] for all 16 registers")
+            n += 1
+    chk.count("ay-chunk-paths", n)
+    chk.floor("ay-chunk-paths", 2)
